@@ -85,6 +85,14 @@ Definition run (inp : list Z) : list Z :=
                          end
           end
       | None => emalformed end
+    else if op =? 3 then   (* explicit list of fields: Wavefront.field, .intensity, .insert(out, weight) *)
+      match pall (n <- pZ ;; m <- pZ ;; fs <- plist (pfield L) ;; out <- parr L ;; wt <- pK L ;;
+                  pret (n, m, fs, out, wt)) rest with
+      | Some (n, m, fs, out, wt) =>
+          let w := mkPwf 1%Qc None FInf (Some (n, m)) fs in
+          0 :: eresult (efdata L) (pwf_field w) ++ eresult (efdata L) (pwf_intensity w)
+            ++ eresult (earr L) (pwf_insert w out wt)
+      | None => emalformed end
     else if op =? 2 then   (* _mul_pixelscale *)
       match pall (ppair p_pix p_pix) rest with
       | Some (a, b) => eresult epix (mul_pixelscale (pix_broadcast a) (pix_broadcast b))
